@@ -16,6 +16,10 @@ try:
 except ImportError:  # pragma: no cover
     pass
 
+# cartesian boxes wrap Python functions: the class defines no dagger at all
+# (Box.dagger() raises TypeError), so the dagger clauses do not apply to it.
+NO_DAGGER = {"cartesian"}
+
 RULE = ("composable / arbitrary triples of generated diagrams in every "
         "diagram class; non-trivial = the operands have together >= 3 boxes "
         "and some operand has an empty domain or codomain, a daggered box, or "
@@ -87,25 +91,26 @@ def check_category(case):
     eq(cls, ident(sa["dom"]) >> a, a, "left-unit")
     eq(cls, a >> ident(specs.spec_cod(sa)), a, "right-unit")
     eq(cls, a.then(), a, "then-nothing")
-    eq(cls, a[::-1][::-1], a, "dagger-involutive")
-    eq(cls, a.dagger(), a[::-1], "dagger-is-[::-1]")
-    eq(cls, ident(sa["dom"])[::-1], ident(sa["dom"]), "dagger-identity")
-    eq(cls, (a >> b)[::-1], b[::-1] >> a[::-1], "dagger-reverses")
-    dag = a[::-1]
-    require(specs.tkey(dag.dom) == specs.tkey(a.cod)
-            and specs.tkey(dag.cod) == specs.tkey(a.dom),
-            "C02:dagger-identity-on-objects",
-            lambda: "{} : {} -> {}".format(dag, dag.dom, dag.cod))
     ab = a >> b
+    if cls not in NO_DAGGER:
+        eq(cls, a[::-1][::-1], a, "dagger-involutive")
+        eq(cls, a.dagger(), a[::-1], "dagger-is-[::-1]")
+        eq(cls, ident(sa["dom"])[::-1], ident(sa["dom"]), "dagger-identity")
+        eq(cls, (a >> b)[::-1], b[::-1] >> a[::-1], "dagger-reverses")
+        dag = a[::-1]
+        require(specs.tkey(dag.dom) == specs.tkey(a.cod)
+                and specs.tkey(dag.cod) == specs.tkey(a.dom),
+                "C02:dagger-identity-on-objects",
+                lambda: "{} : {} -> {}".format(dag, dag.dom, dag.cod))
+        specs.well_typed(dag, "a[::-1]")
+        if cls in ("cat", "monoidal", "rigid", "tensor", "biclosed"):
+            specs.matches_spec(dag, specs.spec_dagger(sa), "a[::-1]")
     for i in range(len(ab) + 1):
         eq(cls, ab[:i] >> ab[i:], ab, "slice-recompose", "i={}".format(i))
     # independent expectation: the composite is the concatenation
     specs.matches_spec(ab >> c, specs.spec_then(specs.spec_then(sa, sb), sc),
                        "a >> b >> c")
     specs.well_typed(ab >> c, "a >> b >> c")
-    specs.well_typed(dag, "a[::-1]")
-    if cls in ("cat", "monoidal", "rigid", "tensor"):
-        specs.matches_spec(dag, specs.spec_dagger(sa), "a[::-1]")
     return dict(nt=nontrivial([sa, sb, sc]), labels=[cls],
                 show="{} | {} | {}".format(*map(common.show, (a, b, c))))
 
@@ -131,7 +136,8 @@ def check_monoidal(case):
     specs.well_typed(ab @ c, "a @ b @ c")
     for i in range(len(ab) + 1):
         eq(cls, ab[:i] >> ab[i:], ab, "slice-recompose", "i={}".format(i))
-    eq(cls, ab[::-1][::-1], ab, "dagger-involutive")
+    if cls not in NO_DAGGER:
+        eq(cls, ab[::-1][::-1], ab, "dagger-involutive")
     return dict(nt=nontrivial([sa, sb, sc]), labels=[cls],
                 show="{} | {} | {}".format(*map(common.show, (a, b, c))))
 
@@ -179,8 +185,9 @@ def check_sums(case):
        "then-distributes-left")
     eq(cls, pre >> both, total([pre >> x for x in terms], pre.dom, cod),
        "then-distributes-right")
-    eq(cls, both[::-1], total([x[::-1] for x in terms], cod, dom),
-       "dagger-distributes")
+    if cls not in NO_DAGGER:
+        eq(cls, both[::-1], total([x[::-1] for x in terms], cod, dom),
+           "dagger-distributes")
     eq(cls, (s >> total([post], cod, post.cod)),
        total([x >> post for x in terms[:case["split"]]], dom, post.cod),
        "sum-then-sum")
